@@ -166,6 +166,12 @@ func ucipos(args []string) {
 			case cur == nil || x < 18:
 				shape = "new"
 				g = extend(r, gameT{start: randomStart()}, r.Intn(8))
+			case x < 27:
+				// the FEN the current game has reached, as a new game (optionally played on): everything but
+				// the six FEN fields must be forgotten
+				shape = "fen-of-current"
+				b := shadow(*cur)
+				g = extend(r, gameT{start: "fen " + fen.Encode(b.Position(), b.Turn(), b.NoProgress(), b.FullMoves())}, r.Intn(3)*r.Intn(4))
 			case x < 45:
 				shape = "extend"
 				g = extend(r, *cur, 1+r.Intn(4))
